@@ -44,7 +44,7 @@ class BuildResult:
 
 
 _SUB_RE = re.compile(r"sub\s+(\S+)\s+`(.*?)`\s*=>\s*`(.*?)`\s*(x\d+|\*|\?)?\s*$")
-_HINT_RE = re.compile(r"hint\s+(before|after|start|loopstart|loopend)\s*(?:(\d+|last)\s*)?(?:`(.*)`)?\s*$")
+_HINT_RE = re.compile(r"hint\s+(?:in\s+`(?P<scope>[^`]*)`\s+)?(before|after|start|loopstart|loopend)\s*(?:(\d+|last)\s*)?(?:`(.*)`)?\s*$")
 
 
 def _variant_filter(lines, variant):
@@ -296,7 +296,9 @@ def build(template_path, repo, variant="strict", inline=None):
                     raise ValueError("%s:%d: bad hint directive" % (o2[1], o2[2]))
                 cur = []
                 # ordinal `last`: the last line containing the anchor (robust against occurrences added in front of it)
-                opts["hints"].append((m.group(1), (-1 if m.group(2) == "last" else int(m.group(2) or 1)), m.group(3), cur, o2))
+                # `hint in \`loop text\` before ..`: the anchor is searched only inside the innermost loop whose body contains `loop text`;
+                # if that loop does not exist the hint is absent (like the invariants of an absent loop), not lost
+                opts["hints"].append((m.group(2), (-1 if m.group(3) == "last" else int(m.group(3) or 1)), m.group(4), cur, (o2, m.group("scope")) if m.group("scope") else o2))
             else:
                 raise ValueError("%s:%d: unknown extract option %r" % (o2[1], o2[2], d2))
 
@@ -550,14 +552,36 @@ def build(template_path, repo, variant="strict", inline=None):
                     q0 = next(q for q, (t, o) in enumerate(body_lines) if "{" in t)
                     body_lines[q0 + 1:q0 + 1] = [("        " + ctext, corig) for (ctext, corig) in content]
                     continue
+                scope_ = None
+                if isinstance(o2, tuple) and len(o2) == 2 and isinstance(o2[1], str) and isinstance(o2[0], tuple):
+                    (o2, scope_) = o2
+                lo_ln, hi_ln = 0, len(body_lines)
+                if scope_ is not None:
+                    # line range of the innermost loop containing the scope text, computed on the current text of the body
+                    txt_ = "\n".join(t for (t, o) in body_lines)
+                    tk_ = R.lex(txt_)
+                    st_ = [t.text for t in R.lex(scope_) if t.kind not in ("ws", "lcomment", "bcomment")]
+                    loops_ = R.find_loops(tk_)
+                    spans_ = []
+                    for lo_ in loops_:
+                        hi_ = match_close(tk_, lo_)
+                        bt = [t.text for t in tk_[lo_:hi_] if t.kind not in ("ws", "lcomment", "bcomment")]
+                        if any(bt[q:q + len(st_)] == st_ for q in range(len(bt) - len(st_) + 1)):
+                            spans_.append((lo_, hi_))
+                    inner_ = [(a_, b_) for (a_, b_) in spans_ if not any(a_ < a2 and b2 < b_ for (a2, b2) in spans_)]
+                    if not inner_:
+                        res.absent_loops.append("%s: hint scope: no loop contains `%s`" % (where, scope_))
+                        continue
+                    lo_ln = txt_[:tk_[inner_[0][0]].start].count("\n")
+                    hi_ln = txt_[:tk_[inner_[0][1]].start].count("\n") + 1
                 hits = []
                 for anchor_ in anchor.split("` ||| `"):
                     # `A ||| B`: alternative anchors (two shapes of the same statement); the first one that occurs is used
                     if anchor_.startswith("^"):
                         # `^text`: the whole (stripped) line equals text
-                        hits = [q for q, (t, o) in enumerate(body_lines) if t.strip() == anchor_[1:] and not isinstance(o, tuple)]
+                        hits = [q for q, (t, o) in enumerate(body_lines) if lo_ln <= q < hi_ln and t.strip() == anchor_[1:] and not isinstance(o, tuple)]
                     else:
-                        hits = [q for q, (t, o) in enumerate(body_lines) if anchor_ in t and not isinstance(o, tuple)]
+                        hits = [q for q, (t, o) in enumerate(body_lines) if lo_ln <= q < hi_ln and anchor_ in t and not isinstance(o, tuple)]
                     if hits:
                         break
                 if len(hits) < max(nth, 1):
